@@ -304,6 +304,9 @@ func (s *Stream) Close() error {
 	}
 	if atomic.LoadUint32(&s.callbackInProcess) == 1 {
 		atomic.CompareAndSwapUint32(&s.state, uint32(streamOpened), uint32(streamLocalHalfClosed))
+		// the callback goroutine finishes the close once OnData has returned: an OnData that waits in a read for more
+		// data must be released for that, nothing else would wake it up.
+		s.safeCloseNotify()
 		return nil
 	}
 
